@@ -3063,7 +3063,10 @@ class Taylor(Output):
                 crmseLabel = "CRMSE"
                 minCrmseLabel = "Min CRMSE"
 
-            maxstd = max(maxstd, max(std))
+            # A slice where the observations do not vary has no finite normalized standard deviation
+            finite_std = std[np.isfinite(std)]
+            if len(finite_std) > 0:
+                maxstd = max(maxstd, max(finite_std))
             ang = np.arccos(corr)
             x = std * np.cos(ang)
             y = std * np.sin(ang)
